@@ -12,10 +12,10 @@ All theorems hold for every number of samples `n`, every permutation `π : Equiv
 sample `π i`) and every ordered field `K` (in particular ℚ, where the driver evaluates the same terms, and ℝ).
 The eigensolver and `sqrt` enter as parameters with contracts (`IsTopEig`, `s ≥ 0 ∧ s² = λ`).
 
-What is *not* true of the code as it stands is stated as a refutation with its witness
-(`reachFromFirst_perm_refuted`): the connectivity decision of `is_connected` (reachability from sample 0) depends on
-which sample comes first (finding F-CONN-DIR, shared with C03); `stronglyConnected_perm` is what a repaired decision
-satisfies, `connectivityDecision_perm_partial` what the present one does.
+F-CONN-DIR (the decision of `is_connected` was reachability from sample 0 along the edges only and depended on which
+sample comes first; shared with C03) has been repaired in /repo: `connectivityDecision_perm` is the full statement
+about the code as it now stands, `reachFromFirst_perm_refuted` keeps the Lean-checked witness against the old
+decision as a regression anchor.
 -/
 set_option linter.unusedSectionVars false
 
@@ -211,11 +211,26 @@ def outlierFirst : Graph 5 := fun i =>
   | 3 => [1, 2, 4]
   | _ => [1, 2, 3]
 
-/-- FULL STATEMENT (false of the code as it stands):
-      `∀ π G, ReachFromFirst (relabelGraph π π.symm G) ↔ ReachFromFirst G`
-    — the decision of `is_connected` (reachability from sample 0) would not depend on the sample order.
-    Refuted: with the outlier first everything is reachable from sample 0; after exchanging samples 0 and 4 the
-    same graph is "not connected".  (Replayed on the real `is_connected` by `checks/c12.py`, corpus/C12.) -/
+/-- the decision of `is_connected` (sample 0 reaches every sample along the edges and along the reversed edges —
+    the code after the repair of F-CONN-DIR) does not depend on the sample order -/
+theorem connectivityDecision_perm (π : Equiv.Perm (Fin n)) (G : Graph n) :
+    ConnectedDecision (relabelGraph π π.symm G) ↔ ConnectedDecision G := by
+  rcases Nat.eq_zero_or_pos n with h0 | hn
+  · subst h0
+    exact ⟨fun _ => ⟨fun h => absurd h (Nat.lt_irrefl 0), fun h => absurd h (Nat.lt_irrefl 0)⟩,
+      fun _ => ⟨fun h => absurd h (Nat.lt_irrefl 0), fun h => absurd h (Nat.lt_irrefl 0)⟩⟩
+  · rw [connectedDecision_iff_strong _ hn, connectedDecision_iff_strong _ hn]
+    exact stronglyConnected_perm π G
+
+/-- … and is exactly what Dijkstra over the lists needs -/
+theorem connectivityDecision_strong (G : Graph n) (hn : 0 < n) : ConnectedDecision G ↔ StronglyConnected G :=
+  connectedDecision_iff_strong G hn
+
+/-- REGRESSION WITNESS (F-CONN-DIR, repaired in /repo by "connectivity check tests reachability in both edge
+    directions"): reachability from sample 0 along the edges ALONE — the decision of `is_connected` before the
+    repair — is not invariant under re-ordering.  With the outlier first everything is reachable from sample 0;
+    after exchanging samples 0 and 4 the same graph is "not connected".  `checks/c12.py` replays this graph on the
+    real `is_connected` (corpus/C12) and finds the defect again on a tree where the repair is reverted. -/
 theorem reachFromFirst_perm_refuted :
     ¬ ∀ (π : Equiv.Perm (Fin 5)) (G : Graph 5), ReachFromFirst (relabelGraph π π.symm G) ↔ ReachFromFirst G := by
   intro h
@@ -233,13 +248,13 @@ theorem reachFromFirst_perm_refuted :
     decide
   exact hno ((h (Equiv.swap 0 4) outlierFirst).mpr hyes)
 
-/-- what the present decision does satisfy: it is implied by strong connectivity in every sample order, so on
-    strongly connected graphs the decision is order independent -/
-theorem connectivityDecision_perm_partial (π : Equiv.Perm (Fin n)) (G : Graph n) (h : StronglyConnected G) :
-    ReachFromFirst (relabelGraph π π.symm G) ∧ ReachFromFirst G :=
-  ⟨fun _ b => (stronglyConnected_perm π G).mpr h _ b, fun _ b => h _ b⟩
+/-- the witness graph is not strongly connected (nothing reaches the outlier), in either order: the repaired
+    decision answers "not connected" both times -/
+example : connectedCode outlierFirst = some false ∧
+    connectedCode (relabelGraph (Equiv.swap (0 : Fin 5) 4) (Equiv.swap (0 : Fin 5) 4).symm outlierFirst) = some false := by
+  decide
 
-/-- the executable decision used by the driver is the specification whenever its certificate holds -/
+/-- the executable decisions used by the driver are the specifications whenever their certificates hold -/
 theorem reachCode_spec (G : Graph n) (b : Bool) (h : reachCode G = some b) (hn : 0 < n) :
     b = true ↔ ReachFromFirst G := by
   unfold reachCode at h
@@ -255,6 +270,19 @@ theorem reachCode_spec (G : Graph n) (b : Bool) (h : reachCode G = some b) (hn :
       have := (reachSet_spec G ⟨0, hn⟩ x hc).mpr (hr hn x)
       simpa using this
   · simp [hc] at h
+
+theorem connectedCode_spec (G : Graph n) (b : Bool) (h : connectedCode G = some b) (hn : 0 < n) :
+    b = true ↔ ConnectedDecision G := by
+  unfold connectedCode at h
+  cases h1 : reachCode G with
+  | none => simp [h1] at h
+  | some b1 =>
+    cases h2 : reachCode (reverseGraph G) with
+    | none => simp [h1, h2] at h
+    | some b2 =>
+      simp only [h1, h2, Option.some.injEq] at h
+      rw [← h, Bool.and_eq_true, reachCode_spec G b1 h1 hn, reachCode_spec (reverseGraph G) b2 h2 hn]
+      rfl
 
 /-! ## call history -/
 
